@@ -21,16 +21,35 @@ class Cfg:
         self.body = fn.body
         self.ev = ev or Ev(prog, fn)
         self._edge_dom = {}
+        self._dead = None
         self._guards = {}
         self._atoms = {}
         self._reach = {}
 
     # ------------------------------------------------------------------ reachability
+    def dead_edges(self):
+        """switch edges that can never be taken: the `otherwise` arm of a match on an enum all of whose
+        variants have their own arm (rustc keeps it when the source has a catch-all `_` arm)"""
+        if self._dead is None:
+            self._dead = set()   # (set first: edge_atoms -> ... -> reach_from must not recurse)
+            dead = set()
+            for blk in self.body.blocks:
+                t = blk.term
+                if blk.cleanup or not t or t.k != "switch":
+                    continue
+                for tgt in set(self.body.succs(blk.i)):
+                    if any(a[0] == "variant" and a[2] == () for a in self.edge_atoms(blk.i, tgt)):
+                        # only if tgt is not also the target of a real arm
+                        if tgt == t.j["o"] and tgt not in [b for _v, b in t.j["ts"]]:
+                            dead.add((blk.i, tgt))
+            self._dead = dead
+        return self._dead
+
     def reach_from(self, start, cut_edges=(), cut_blocks=()):
         """blocks reachable from `start` (inclusive) without crossing cut edges/blocks"""
         seen = set()
         st = [start]
-        cut_edges = set(cut_edges)
+        cut_edges = set(cut_edges) | self.dead_edges()
         cut_blocks = set(cut_blocks)
         while st:
             b = st.pop()
@@ -186,6 +205,7 @@ class Cfg:
                 else:
                     atoms.append(("notvariant", subj, tuple(excl)))
         elif dty == "bool":
+            d = expand_predicates(self.prog, d)
             if vals == [0] and not is_other:
                 atoms.extend(bool_atoms(d, False))
             elif is_other and not vals and all_vals == [0]:
@@ -193,10 +213,17 @@ class Cfg:
             elif vals == [1] and not is_other:
                 atoms.extend(bool_atoms(d, True))
         else:
+            # integer switch (match on literal patterns): a single literal is an ordinary comparison
             if vals and not is_other:
-                atoms.append(("intin", d, tuple(vals)))
+                if len(vals) == 1:
+                    atoms.append(canon_cmp("eq", d, ("const", dty, str(vals[0]), vals[0])))
+                else:
+                    atoms.append(("intin", d, tuple(vals)))
             elif is_other and not vals:
-                atoms.append(("intnotin", d, tuple(all_vals)))
+                if len(all_vals) == 1:
+                    atoms.append(canon_cmp("ne", d, ("const", dty, str(all_vals[0]), all_vals[0])))
+                else:
+                    atoms.append(("intnotin", d, tuple(all_vals)))
         self._atoms[key] = atoms
         return atoms
 
@@ -215,8 +242,71 @@ class Cfg:
                     out.append(a)
         if self.bypassable(b, edges):
             out.append(("opaque", "reached only on some of the paths its branch conditions allow"))
+        self._guards[b] = out   # (set before the correlated step: cuts recursion)
+        # correlated branches: a switch on the variant of a value that was BUILT as that variant in
+        # exactly one earlier block (e.g. the Ok(..)/Err(..) returned by an inlined helper and then
+        # tested with `?` or `match`) inherits the conditions of that block
+        for (s, tgt) in edges:
+            for a in self.correlated_atoms(s, tgt):
+                if a not in out:
+                    out.append(a)
         self._guards[b] = out
         return out
+
+    def correlated_atoms(self, s, tgt):
+        blk = self.body.blocks[s]
+        t = blk.term
+        if t.k != "switch" or t.discr.place is None or t.discr.place.proj:
+            return []
+        want = None
+        for a in self.edge_atoms(s, tgt):
+            if a[0] == "variant" and len(a[2]) == 1:
+                want = a[2][0]
+        if want is None:
+            return []
+        want = {"Continue": ("Ok", "Some"), "Break": ("Err", "None")}.get(want, (want,))
+        # local whose discriminant is switched on
+        l = t.discr.place.local
+        src = None
+        for st in reversed(blk.stmts):
+            if st.k == "assign" and st.place.is_local() and st.place.local == l and st.rv.k == "discr" and not st.rv.place.proj:
+                src = (st.rv.place.local, (s, blk.stmts.index(st)))
+                break
+        if src is None:
+            return []
+        val_local, at = src
+        hops = 0
+        while hops < 4:
+            hops += 1
+            defs = self.ev.reaching_defs(val_local, at)
+            if len(defs) == 1 and defs[0][0] == "c":
+                ct = self.body.blocks[defs[0][1]].term
+                if (ct.callee_name in ("branch", "into", "from", "clone") and len(ct.args) == 1 and ct.args[0].place is not None and not ct.args[0].place.proj):
+                    val_local = ct.args[0].place.local
+                    at = (defs[0][1], len(self.body.blocks[defs[0][1]].stmts))
+                    continue
+            if len(defs) == 1 and defs[0][0] == "s":
+                st = self.body.blocks[defs[0][1]].stmts[defs[0][2]]
+                if st.rv.k == "use" and st.rv.ops[0].place is not None and not st.rv.ops[0].place.proj:
+                    val_local = st.rv.ops[0].place.local
+                    at = (defs[0][1], defs[0][2])
+                    continue
+            break
+        defs = self.ev.reaching_defs(val_local, at)
+        if len(defs) < 2:
+            return []
+        matching = []
+        for d in defs:
+            if d[0] != "s":
+                return []
+            st = self.body.blocks[d[1]].stmts[d[2]]
+            if st.rv.k != "agg" or st.rv.j.get("ak") != "adt":
+                return []
+            if st.rv.j.get("variant") in want:
+                matching.append(d[1])
+        if len(set(matching)) != 1:
+            return []
+        return [a for a in self.guards(matching[0]) if a[0] != "opaque"]
 
     def bypassable(self, b, edges):
         """can execution, once past the last controlling edge of b (or from entry), finish
@@ -297,7 +387,7 @@ class Cfg:
                     if (blk.i, s) in cut:
                         continue
                     if b not in self.reach_from(0, cut_edges=cut + [(blk.i, s)]):
-                        for a in self.edge_atoms(blk.i, s):
+                        for a in self.edge_atoms(blk.i, s) + self.correlated_atoms(blk.i, s):
                             if a not in new:
                                 new.append(a)
             if len(new) == len(known):
@@ -305,13 +395,167 @@ class Cfg:
             known = new
         return known
 
+    def correlated_switches(self):
+        """switches on the variant of a value built as a known variant in earlier blocks:
+        list of (switch block, {target: set(def blocks)})"""
+        if getattr(self, "_corr", None) is not None:
+            return self._corr
+        out = []
+        for blk in self.body.blocks:
+            t = blk.term
+            if blk.cleanup or not t or t.k != "switch":
+                continue
+            per = {}
+            for tgt in set(self.body.succs(blk.i)):
+                d = self.variant_def_blocks(blk.i, tgt)
+                if d is not None:
+                    per[tgt] = d
+            if per:
+                out.append((blk.i, per))
+        self._corr = out
+        return out
+
+    def variant_def_blocks(self, s, tgt):
+        """blocks that build the switched-on value as the variant selected by edge s->tgt (None if unknown)"""
+        blk = self.body.blocks[s]
+        t = blk.term
+        if t.discr.place is None or t.discr.place.proj:
+            return None
+        want = None
+        for a in self.edge_atoms(s, tgt):
+            if a[0] == "variant" and len(a[2]) >= 1:
+                want = a[2]
+        if want is None:
+            return None
+        names = set()
+        for wv in want:
+            names |= set({"Continue": ("Ok", "Some"), "Break": ("Err", "None")}.get(wv, (wv,)))
+        l = t.discr.place.local
+        src = None
+        for st in reversed(blk.stmts):
+            if st.k == "assign" and st.place.is_local() and st.place.local == l and st.rv.k == "discr" and not st.rv.place.proj:
+                src = (st.rv.place.local, (s, blk.stmts.index(st)))
+                break
+        if src is None:
+            return None
+        val_local, at = src
+        for _hop in range(4):
+            defs = self.ev.reaching_defs(val_local, at)
+            if len(defs) == 1 and defs[0][0] == "c":
+                ct = self.body.blocks[defs[0][1]].term
+                if ct.callee_name in ("branch", "into", "from", "clone") and len(ct.args) == 1 and ct.args[0].place is not None and not ct.args[0].place.proj:
+                    val_local = ct.args[0].place.local
+                    at = (defs[0][1], len(self.body.blocks[defs[0][1]].stmts))
+                    continue
+            if len(defs) == 1 and defs[0][0] == "s":
+                st = self.body.blocks[defs[0][1]].stmts[defs[0][2]]
+                if st.rv.k == "use" and st.rv.ops[0].place is not None and not st.rv.ops[0].place.proj:
+                    val_local = st.rv.ops[0].place.local
+                    at = (defs[0][1], defs[0][2])
+                    continue
+            break
+        defs = self.ev.reaching_defs(val_local, at)
+        if len(defs) < 2:
+            return None
+        out = set()
+        for d in defs:
+            if d[0] != "s":
+                return None
+            st = self.body.blocks[d[1]].stmts[d[2]]
+            if st.rv.k != "agg" or st.rv.j.get("ak") != "adt":
+                return None
+            if st.rv.j.get("variant") in names:
+                out.add(d[1])
+        return out
+
+    def reach_under(self, assume_cut):
+        """blocks reachable from entry when the edges in `assume_cut` are impossible, pruning (to a
+        fixpoint) every variant-switch edge whose value can no longer have been built as that variant"""
+        cuts = set(assume_cut)
+        while True:
+            reach = self.reach_from(0, cut_edges=cuts)
+            more = set()
+            for (s, per) in self.correlated_switches():
+                if s not in reach:
+                    continue
+                for tgt, defs in per.items():
+                    if (s, tgt) not in cuts and not (defs & reach):
+                        more.add((s, tgt))
+            if not more:
+                return reach, cuts
+            cuts |= more
+
+    def edges_with(self, pred):
+        """switch edges (s, t) one of whose atoms satisfies pred"""
+        out = []
+        for blk in self.body.blocks:
+            t = blk.term
+            if blk.cleanup or not t or t.k != "switch":
+                continue
+            for tgt in set(self.body.succs(blk.i)):
+                if any(pred(a) for a in self.edge_atoms(blk.i, tgt)):
+                    out.append((blk.i, tgt))
+        return out
+
     def guard_edges_with_atoms(self, b):
         return [((s, t), self.edge_atoms(s, t)) for (s, t) in self.controlling_edges(b)]
+
+
+def closure_apply(prog, clo, args):
+    """stripped return origin of closure aggregate `clo` applied to args (captures substituted)"""
+    from .beta import subst_expr
+    f = prog.fns.get(clo[2]) or prog.fn_by_short(clo[2])
+    if f is None:
+        return None
+    ev = Ev(prog, f)
+    rets = f.body.return_blocks()
+    if len(rets) != 1:
+        vals = [strip(ev.local_val(0, ev.term_at(b))) for b in rets]
+        r = vals[0] if len(set(map(repr, vals))) == 1 else ("phi", tuple(vals))
+    else:
+        r = strip(ev.local_val(0, ev.term_at(rets[0])))
+    ops, names = clo[3], clo[4]
+
+    def m(e):
+        if e[0] == "field" and e[1][0] == "param" and e[1][1] == 1:
+            for i, n in enumerate(names):
+                if n == e[2] or n.lstrip("*") == e[2].lstrip("*"):
+                    return ops[i] if i < len(ops) else None
+            return None
+        if e[0] == "param" and e[1] >= 2 and e[1] - 2 < len(args):
+            return args[e[1] - 2]
+        return None
+    return strip(subst_expr(r, m))
+
+
+def expand_predicates(prog, d):
+    """is_some_and(o, C) -> And(o is Some, C(o.Some.0)); is_none_or(o, C) -> Or(o is None, C(..))"""
+    if d[0] == "call" and d[4] in ("is_some_and", "is_ok_and", "is_none_or") and len(d[2]) == 2 and d[2][1][0] == "agg" and d[2][1][1] == "closure":
+        o = d[2][0]
+        v = "Ok" if d[4] == "is_ok_and" else "Some"
+        payload = ("field", ("downcast", o, v), "0", "")
+        body = closure_apply(prog, d[2][1], [payload])
+        if body is not None:
+            if d[4] == "is_none_or":
+                return ("pred_or", ("isvariant", o, "None"), body)
+            return ("pred_and", ("isvariant", o, v), body)
+    if d[0] == "un" and d[1] == "Not":
+        return ("un", "Not", expand_predicates(prog, d[2]))
+    return d
 
 
 def bool_atoms(d, truth):
     """normalise a boolean origin expression `d` asserted to be `truth` into atoms"""
     t = d[0]
+    if t == "isvariant":
+        flip = {"Some": "None", "None": "Some", "Ok": "Err", "Err": "Ok"}
+        return [("variant", d[1], (d[2] if truth else flip.get(d[2], "?"),))]
+    if t == "pred_and" and truth:
+        return bool_atoms(d[1], True) + bool_atoms(d[2], True)
+    if t == "pred_or" and not truth:
+        return bool_atoms(d[1], False) + bool_atoms(d[2], False)
+    if t in ("pred_and", "pred_or"):
+        return [("bool", d, truth)]
     if t == "bin" and d[1] in BINCMP:
         op = BINCMP[d[1]]
         if not truth:
